@@ -87,8 +87,26 @@ pub fn worker() -> usize {
     WORKER.try_with(|w| w.get()).unwrap_or(NOT_A_WORKER)
 }
 
+thread_local! {
+    static OUT_SEQ: std::cell::Cell<u64> = std::cell::Cell::new(0);
+}
+
+/// The address residue (modulo 8) of the next output buffer of the running case: the case's rotating residue
+/// (`place::split`) advanced by three for every output buffer the case has made so far.
+pub fn out_residue() -> usize {
+    let w = worker();
+    let idx = if w < MAX_WORKERS { CRUMB_IDX[w].load(Relaxed) } else { 0 };
+    let k = OUT_SEQ.with(|c| {
+        let k = c.get();
+        c.set(k + 1);
+        k
+    });
+    ((crate::engine::place::split(idx, false).1 as u64 + 3 * k) % 8) as usize
+}
+
 #[inline]
 pub fn crumb_begin(space: usize, idx: u64) {
+    OUT_SEQ.with(|c| c.set(0));
     let w = worker();
     if w < MAX_WORKERS {
         CRUMB_SPACE[w].store(space, Relaxed);
